@@ -11,44 +11,44 @@ NOTE_COMMON = ("Trusted: Go type checker + go/ssa (x/tools v0.29.0); contracts o
 CLAIMED = {
  "C01": ("path-sensitive effect summaries over go/ssa (all paths of Update) + zone domain + who-may-call queries",
          "Decides the inductive step of the append-only invariant on every control-flow path of Update for every ordering of sizes (guarded accept, proof argument positions, single write handle, sole writer via the call graph, first use only on an exact NotFound, accepted implies committed on the composition Update∘store for both stores). Not the cryptographic/numeric validity of proofs; not histories as executions.", "5/C01"),
- "C02": ("path-sensitive provenance analysis over go/ssa (authentication dominates every use)",
-         "Decides that an unknown log is refused first and that every storage call/signature/field read in Update is preceded by a successful ParseCheckpoint under exactly the configured origin and verifier of the named log; configuration map keyed by ID(origin); the bastion endpoint hands the witness the request's checkpoint bytes unmodified. Crypto soundness of note.Open trusted.", "5/C02"),
- "C03": ("path-sensitive effect summaries (no Set / no leak on refusal paths) + storage-layer path rules",
-         "Decides that no refusal path of Update can write or return anything but nil/the stored bytes, that neither store can write on a refusal (Close==Rollback on every path, CAS writes only on nil return), and that requests the endpoint refuses (429/400/404) never reach the witness. Does not compare runtime byte values.", "5/C03"),
- "C04": ("value-identity (provenance) analysis over path summaries",
-         "Decides returned==stored==Sign(verified note, all signers) on every success path, no short-circuit, reads verbatim from the store, SQL Set returns nil only as Commit's result. Signature validity and timestamp value are trusted to x/mod note and formats/note.", "5/C04"),
- "C05": ("lockset + compare-and-set typestate + transaction-scope + immutability analyses over go/ssa paths",
-         "Necessary structural conditions only (level other): lock discipline on the in-memory map, CAS guarded by snapshot equality inside the critical section, SQL read/exec/commit/rollback on one transaction and the compare-and-set keyed by the request's log ID with the snapshot taken at WriteOps (both on the composition Update∘store), no nested storage access while the write operation is open, no shared mutable globals, immutable configuration fields. Linearizability itself is not decided; no schedule is explored.", "5/C05"),
+ "C02": ("path-sensitive provenance analysis over go/ssa (authentication dominates every use) + composition Update∘store",
+         "Decides that an unknown log is refused first and that every storage call/signature/field read in Update is preceded by a successful ParseCheckpoint under exactly the configured origin and verifier of the named log; configuration map keyed by ID(origin); the bastion endpoint hands the witness the request's checkpoint bytes unmodified; on the composition with both stores the authenticated checkpoint is stored under the request's own log ID. Crypto soundness of note.Open trusted.", "5/C02"),
+ "C03": ("path-sensitive effect summaries (no Set / no leak on refusal paths) + composition Update/GetCheckpoint/GetLogs∘store + composition endpoint∘Update outcome classes",
+         "Decides that no refusal path of Update can write or return anything but nil/the stored bytes, that on the composed paths with either store a refusal leaves the store untouched and read paths never mutate and return only what the database/the map holds (no state outside the store), that requests the endpoint refuses (429/400/404) never reach the witness, and that the endpoint never writes through the bytes the witness returned. Does not compare runtime byte values.", "5/C03"),
+ "C04": ("value-identity (provenance) analysis over path summaries + handler-verbatim rule",
+         "Decides returned==stored==Sign(verified note, all signers) on every success path, no short-circuit, reads verbatim from the store and through the HTTP read handler, SQL success only through Commit. Signature validity and timestamp value are trusted to x/mod note and formats/note.", "5/C04"),
+ "C05": ("lockset + compare-and-set with lock epochs + transaction-scope + immutability analyses on the compositions root∘concrete store",
+         "Necessary structural conditions only (level other): on Update/GetCheckpoint/GetLogs composed with the in-memory store every map access is under the lock (writes under the exclusive lock, released on all exits, no re-entrant locking) and the map is written only after re-reading the same key inside the writing critical section and finding it equal to the snapshot taken when the write operation was opened; composed with SQL: read/exec/commit/rollback on one transaction keyed by the request's log ID; first use only on affirmative absence; no nested storage access; package variables assigned only at init/Once; checkpoint bytes never modified in place. Linearizability itself, SQLite isolation and schedules are not explored.", "5/C05"),
  "C06": ("ordering (must-pass-through) analysis over path summaries + SQL statement tokenizer (writer/reader agreement)",
          "Necessary structural conditions only: success only after Commit of a single upsert on the handle's transaction (per function and on Update∘sql: Begin→QueryRow→Exec→Commit→return→Rollback); no autocommit mutation; reads served from the durable store only. SQLite's crash atomicity is trusted; crash points are not explored.", "5/C06"),
- "C07": ("error-discipline analysis over path summaries (TOFU only on NotFound, Close on all exits, no dropped error)",
-         "Decides the error discipline of Update, both stores and the adapter on every path: TOFU only on exact NotFound, Close at every exit and Close==Rollback on every path, no dropped error, no nested storage access while a transaction is open. Does not exercise database/sql's pool under faults.", "5/C07"),
- "C08": ("typestate rule (stored value must be re-openable) + honest-step completeness over order classes of the path summaries",
-         "Two one-step necessary conditions of the liveness claim (level other): nothing stored can be unreadable by the witness's own reader; no ordering class of (stored, submitted) size is a dead end for an honest request and acceptance follows from honesty alone (no extra predicate); refusals release the storage connection. K1 (stored size 0 < submitted) is a known finding. Histories are not explored.", "5/C08"),
- "C09": ("exhaustive decision table over a finite order abstraction (weak orderings x predicate valuations) of the path summaries",
-         "Decides that every abstract cell (known, signature, stored, ordering of 0/old/stored/submitted sizes, rootEq, proofOK, proofEmpty) is answered by exactly one fault-free path with the outcome the first-match table prescribes; checks the abstraction's soundness premise (sizes only compared). The proof verdict is an uninterpreted boolean tied to VerifyConsistency's contract.", "5/C09"),
- "C10": ("composition of path summaries (Update outcome classes x handleUpdate/ServeHTTP paths) against the protocol status table",
-         "Decides the endpoint's verdict-to-status mapping composed with the real Update's outcome classes, limiter-first, exactly one documented status per path, 200 only with freshly cosigned bytes and a body built from signatures verified under the witness key, the pre-checks, strict decimal old size. Transport, crypto validity of the cosignature and the limiter's rate are not decided.", "5/C10"),
+ "C07": ("error-discipline analysis over path summaries of Update and of the compositions with both stores, the adapter and the endpoint",
+         "Decides the error discipline on every path: TOFU only on affirmative absence (sql.ErrNoRows / missing map entry), Close at every exit and a transaction begun is rolled back at exit on every path, no dropped database/sql error, no nested storage access, reads served from committed state only, the adapter maps only NotFound to os.ErrNotExist, and no failing outcome of Update is answered 200 by the endpoint. Does not exercise database/sql's pool under faults.", "5/C07"),
+ "C08": ("typestate rule (stored value must be re-openable) + honest-step completeness over order classes of the path summaries + endpoint limiter/pre-check rules",
+         "Necessary conditions of the liveness claim (level other): nothing stored can be unreadable by the witness's own reader; no ordering class of (stored, submitted) size is a dead end for an honest request and acceptance follows from honesty alone (no extra predicate, no state outside the store); refusals release the storage connection; the endpoint consults its limiter exactly once through Allow and hands honest requests to the witness unmodified. K1 (stored size 0 < submitted) is a known finding. Histories are not enumerated.", "5/C08"),
+ "C09": ("exhaustive decision table over a finite order abstraction (weak orderings x predicate valuations) of the path summaries + endpoint composition",
+         "Decides that every abstract cell (known, signature, stored, ordering of 0/old/stored/submitted sizes, rootEq, proofOK, proofEmpty) is answered by exactly one fault-free path with the outcome the first-match table prescribes; that verdicts branch only on the request, the configuration and the checkpoint read in this call (no hidden state); that first use needs affirmative absence; that every sentinel the witness returns has its own answer at the endpoint. The proof verdict is an uninterpreted boolean tied to VerifyConsistency's contract.", "5/C09"),
+ "C10": ("composition: ServeHTTP explored once per outcome class of the real Update (witness call answered by the class, helpers inlined) against the protocol status table",
+         "Decides the endpoint's verdict-to-status mapping composed with the real Update's outcome classes whatever way the handler is split or the table is written (switch, map, helper structs), limiter-first, exactly one documented constant status per path, 200 only for a committed, freshly cosigned checkpoint and with a body built from signatures verified under the witness key, stale 409 with the decimal current size, the pre-checks, strict decimal old size, metric labels free of request bytes, witness bytes never written through. Transport, crypto validity of the cosignature and the limiter's rate are not decided.", "5/C10"),
  "C11": ("sibling agreement (writer vs reader) over path summaries + refusal-totality + disallowed-call query",
          "Narrow structural claim (level other): same base64 object/terminator/prefix in writers and readers, error returns carry nothing else, success only after the blank separator, strict whole-string integer parsing, order-preserving element construction, an ownership rule (a bufio ReadLine view is never retained un-copied), unbounded line split. Round-trip equality of values is not decided (O1).", "5/C11"),
- "C13": ("provenance analysis over the path summaries of FeedOnce and of the retry closure (analysed as its own root, linked through captured cells)",
-         "Decides verify-before-submit, anchoring of old size and proof to the witness's latest of the same attempt, never-when-ahead, retry bound to the context, result pass-through. Retry convergence and timing are not decided.", "5/C13"),
- "C15": ("provenance + implied-fact (zone) analysis over the path summaries of distributeForLog/DistributeOnce",
-         "Decides PUT-verbatim, verify-before-PUT with exactly two verified signatures, target URL construction, success implies status == 200 with method PUT, per-log isolation (loop unrolled twice). Signature validity and net/http behaviour trusted.", "5/C15"),
+ "C13": ("provenance analysis over the path summaries of FeedOnce with the retried operation inlined (captured variables it assigns are carried-over unknowns)",
+         "Decides verify-before-submit, anchoring of old size and proof to the witness's latest of the same attempt (nothing is reused from an earlier attempt), never-when-ahead, retry bound to the context, result pass-through, adapter mapping, no leaked transaction behind the witness. Retry convergence and timing are not decided.", "5/C13"),
+ "C15": ("provenance + implied-fact (zone) analysis over the path summaries of distributeForLog/DistributeOnce + Main wiring",
+         "Decides PUT-verbatim, verify-before-PUT with exactly two verified signatures, target URL construction, success implies status == 200 with method PUT, per-log isolation and failure accounting (loop unrolled twice), counters by metric name, and that Main hands the distributor every configured log. Signature validity and net/http behaviour trusted.", "5/C15"),
  "C16": ("value-identity analysis over handler/client path summaries + code tables + route-pattern check against the ID alphabet",
          "Decides handler-verbatim, NotFound<->404<->os.ErrNotExist mappings on implied facts, log list = JSON of storage keys, route pattern admits every hex ID, returned==stored in Update, the shared client never writes through its receiver. Routing internals of gorilla/mux trusted.", "5/C16"),
  "C12": ("key pass-through/provenance analysis over path summaries + sibling agreement over the feeder registry + constructor-discipline queries",
          "Decides that the request's log ID is the only key used in Update and both stores, that every origin->ID derivation is formats/log.ID(origin), that feeders/bastion/distributor use {ID, Origin, Verifier} of one config.Log, that duplicates are refused before start-up, that the origin check binds a checkpoint to its log ID, and that no cross-log mutable state exists. Executions of interleaved histories are not explored.", "5/C12"),
- "C14": ("wiring analysis over the path summaries of Main/Run/connectAndServe + enum exhaustiveness over the feeder registry",
-         "Narrow structural claim (level other): one witness instance behind every component, every registry feeder has an implementation and is launched, service loops return only on context end, first-feed proof is empty, proof builders are per call, the fork guard (ACCEPT-GUARD, exact NotFound) and nothing that can wedge the shared witness (close/rollback/no nested storage). Convergence, timing, restarts are NOT decided.", "5/C14"),
- "C17": ("configuration lint: every entry of the embedded YAML files validated against constraint sets extracted from the code on each run",
-         "Exhaustive over the finite set of shipped entries: key parses (production parser), ID unique, feeder known, URL acceptable to its feeder; plus code-side exhaustiveness, abort-on-error wiring, every configured log reaches the bastion/distributor list, NewLog passes the configured values through unchanged. Does not decide that the keys/URLs are the right ones.", "5/C17"),
- "C18": ("constant agreement with the pinned reference implementation + argument-position (plumbing) analysis over path summaries",
-         "Narrow structural claim (level other): pathBase/format literals agree with tlog, height constants coherent, tile coordinates and ProveTree arguments in the right positions, partial-tile suffix exactly for tiles narrower than 1<<height on the composition ReadTiles∘TileData, empty-proof shortcut only for from.Size == 0. Path strings for all indices and proof acceptance are NOT decided (O3).", "5/C18"),
+ "C14": ("wiring analysis over the path summaries of Main with goroutine bodies inlined (errgroup.Go as a higher-order call), Run, connectAndServe + enum exhaustiveness over the feeder registry",
+         "Narrow structural claim (level other): one witness instance behind every component, every registry feeder has an implementation, each launched feeder runs as feeder(group context, its own log, the adapter around that witness, client, poll interval) with log and feeder taken from one (config.NewLog(E), E.Feeder.FeedFunc()) pair, one goroutine per pair, service loops return only on context end, first-feed proof is empty, proof builders are per call, tile URLs follow tlog's layout, the fork guard and nothing that can wedge the shared witness. Convergence, timing and restarts are not decided.", "5/C14"),
+ "C17": ("configuration lint: every entry of the embedded YAML files validated against constraint sets extracted from the code on each run (incl. numeric start-up checks evaluated for 32- and 64-bit int)",
+         "Exhaustive over the finite set of shipped entries: key parses (production parser), ID unique, feeder known, URL acceptable to its feeder (required parameters, schemes, integer parses on both word sizes); plus code-side exhaustiveness, abort-on-error wiring, (log, feeder) pairing, every configured log reaches the bastion/distributor list, NewLog passes the configured values through unchanged. Does not decide that the keys/URLs are the right ones.", "5/C17"),
+ "C18": ("string-template normalisation of every URL reaching the SumDB fetcher on ReadTiles∘client (Sprintf/concatenation/strconv reduced to literal, decimal and zero-padded pieces) compared with tlog's layout + plumbing analysis",
+         "Narrow structural claim (level other): every tile URL is tile/<H>/<L>/[x<NNN>/]*<NNN>[.p/<W>] with H the reader's height, L and the index those of the requested tile, base-1000 digit groups emitted exactly under the matching range conditions (up to three groups explored), the partial suffix exactly for tiles narrower than 1<<H carrying t.W; height constants coherent; ProveTree arguments in position; empty-proof shortcut only for from.Size == 0; Accept-Encoding never set by hand. Proof acceptance is NOT decided.", "5/C18"),
  "C19": ("reachability of panic sites in the network-input call graph + zone-domain discharge of every index/slice site on every path + bounded-narrowing rule + constant checks of caps/time-outs",
          "Structural necessary conditions (level other): no reachable explicit panic, every implicit-panic instruction dominated by bounds facts or in a reasoned table, bounded size narrowing before tlog, bounded make() lengths, one status per path, 16 KiB cap, time-outs present, no request path leaves the storage connection pinned. Termination in general, memory exhaustion and dependency panics are not decided.", "5/C19"),
  "C20": ("path-sensitive effect summaries: outcome-to-counter table over all paths of Update",
-         "Decides exactly-once increments per outcome with counters identified by metric name, label provenance, single assignment in Once.Do, constructors initialise metrics.", "5/C20"),
+         "Decides exactly-once increments per outcome with counters identified by the metric name they were created with (found by running the function that only Once.Do runs), label provenance, creation only under the Once, constructors create the counters before anything else.", "5/C20"),
 }
 
 NA = {
